@@ -1,0 +1,9 @@
+//go:build verif
+
+package gb28181
+
+// VerifFeedPacket = feedPacket: what the udp / tcp read loops call for every
+// rtp datagram, callable from the C07 verification harness.
+func (session *PubSession) VerifFeedPacket(b []byte) {
+	session.feedPacket(b)
+}
